@@ -169,6 +169,8 @@ def build_group(levels, spelling, boxed=False):
             cur = Flatten(Group({(T % 2 if spelling == 0 else (lambda t: t % 2)): Count()}))
         elif leaf['val'] == 'gbsum':
             cur = Merge(Group({(T % 2 if spelling == 0 else (lambda t: t % 2)): Sum()}))
+        elif leaf['val'] in ('cats', 'catt'):
+            cur = Sum(init=str if leaf['val'] == 'cats' else tuple)      # addition that is not commutative
         elif a == 'Sum':
             cur = Sum() if leaf['val'] == 'ident' and spelling == 0 else Sum(_val_fn(leaf['val'], spelling))
         elif a == 'Flatten':
@@ -669,6 +671,7 @@ def rand_spec(rng):
     elif kind != 'int':
         leaf = rng.choice([{'op': 'list', 'agg': '', 'val': 'ident'}, {'op': 'last', 'agg': '', 'val': 'ident'}] +
                           [{'op': 'agg', 'agg': a, 'val': 'ident'} for a in ('First', 'Max', 'Min', 'Max', 'Min', 'Count')] +
+                          [{'op': 'agg', 'agg': 'Sum', 'val': 'cats' if kind == 'str' else 'catt'}] * 2 +
                           [{'op': 'agg', 'agg': 'Sample', 'val': 'ident', 'n': rng.choice([2, 20])}])
     elif r < 0.2:
         leaf = {'op': 'list', 'agg': '', 'val': rng.choice(['ident', 'inc', 'x10', 'skip3'])}
@@ -799,10 +802,10 @@ UNIVERSES = {
         ('flat-deep', consts(MaxKeyLevels=3, MaxItems=3, MaxTotal=3, ItemMax=2, KFs=tla_set(['half', 'skipodd']),
                              Aggs=tla_set(['First', 'Avg', 'Flatten']), VFs=tla_set(['ident']), LimitNs='{99, 2}')),
         ('ord-str', consts(MaxKeyLevels=1, MaxItems=3, MaxTotal=3, ItemKind='"str"', KFs=tla_set(ORD_KFS),
-                           Aggs=tla_set(['First', 'Max', 'Min', 'Count']), VFs=tla_set(['ident']), LimitNs='{99, 2}',
+                           Aggs=tla_set(['First', 'Max', 'Min', 'Count']), VFs=tla_set(['ident', 'cats']), LimitNs='{99, 2}',
                            SampleNs='{2}')),
         ('ord-tup', consts(MaxKeyLevels=1, MaxItems=3, MaxTotal=3, ItemKind='"tup"', KFs=tla_set(ORD_KFS),
-                           Aggs=tla_set(['First', 'Max', 'Min', 'Count']), VFs=tla_set(['ident']), LimitNs='{99, 2}',
+                           Aggs=tla_set(['First', 'Max', 'Min', 'Count']), VFs=tla_set(['ident', 'catt']), LimitNs='{99, 2}',
                            SampleNs='{2}')),
         ('constructs', consts(MaxKeyLevels=1, MaxItems=3, MaxTotal=3, ItemMax=2, NegItems=1, KFs=tla_set(['mod2', 'skip0']),
                               Aggs=tla_set(['First', 'Max', 'Sum']), VFs=tla_set(['ident', 'list2']), LimitNs='{99, 2}',
@@ -832,10 +835,10 @@ UNIVERSES = {
                              Aggs=tla_set(['First', 'Avg', 'Flatten', 'Count']), VFs=tla_set(['ident']),
                              LimitNs='{99, 3}')),
         ('ord-str', consts(MaxKeyLevels=2, MaxItems=4, MaxTotal=4, ItemKind='"str"', KFs=tla_set(ORD_KFS),
-                           Aggs=tla_set(['First', 'Max', 'Min', 'Count']), VFs=tla_set(['ident']), LimitNs='{99, 2}',
+                           Aggs=tla_set(['First', 'Max', 'Min', 'Count']), VFs=tla_set(['ident', 'cats']), LimitNs='{99, 2}',
                            SampleNs='{2}')),
         ('ord-tup', consts(MaxKeyLevels=2, MaxItems=4, MaxTotal=4, ItemKind='"tup"', KFs=tla_set(ORD_KFS),
-                           Aggs=tla_set(['First', 'Max', 'Min', 'Count']), VFs=tla_set(['ident']), LimitNs='{99, 2}',
+                           Aggs=tla_set(['First', 'Max', 'Min', 'Count']), VFs=tla_set(['ident', 'catt']), LimitNs='{99, 2}',
                            SampleNs='{2}')),
         ('constructs', consts(MaxKeyLevels=2, MaxItems=4, MaxTotal=4, ItemMax=2, NegItems=1, KFs=tla_set(['mod2', 'skip0']),
                               Aggs=tla_set(['First', 'Max', 'Sum', 'Flatten']), VFs=tla_set(['ident', 'list2']),
@@ -875,6 +878,8 @@ SMALL_HOSTILE = consts(MaxKeyLevels=0, MaxItems=2, MaxTotal=2, ItemKind='"hostil
                        VFs=tla_set(['ident']), LimitNs='{99}')
 SMALL_ODD = consts(MaxKeyLevels=1, MaxItems=2, MaxTotal=2, ItemKind='"odd"', KFs=tla_set(['ident']), Aggs=tla_set(['Count']),
                    VFs=tla_set(['ident']), LimitNs='{99}')
+SMALL_CAT = consts(MaxKeyLevels=1, MaxItems=2, MaxTotal=2, ItemKind='"str"', KFs=tla_set(['len']), Aggs=tla_set(['Count']),
+                   VFs=tla_set(['ident', 'cats']), LimitNs='{99}')
 SMALL_NESTED = consts(MaxKeyLevels=1, MaxItems=2, MaxTotal=3, ItemMax=1, MaxEvals=2, MaxDepth=2, KFs=tla_set(['mod2']),
                       Aggs=tla_set(['Max', 'Avg', 'Sum']), VFs=tla_set(['ident']), LimitNs='{99, 1}')
 
@@ -901,7 +906,7 @@ def model_level_jobs(tier):
         if tier == 'quick' else \
         [('carry', SMALL_NESTED), ('avgint', SMALL), ('limit1', SMALL), ('firstlast', SMALL), ('curagg', SMALL_INNER),
          ('minnum', SMALL_ORD), ('sampledrop', SMALL_CONS), ('list2swap', SMALL_CONS), ('limit1', SMALL_CONS),
-         ('eager', SMALL_LAZY), ('eqskip', SMALL_HOSTILE), ('idkeys', SMALL_ODD)]
+         ('eager', SMALL_LAZY), ('eqskip', SMALL_HOSTILE), ('idkeys', SMALL_ODD), ('sumswap', SMALL_CAT)]
     for m, universe in muts:
         runs.append(dict(label='mutant %s rejected' % m, module='MC_C16', cfg='MC_C16',
                          constants=dict(universe, Mutant='"%s"' % m), expect='any', workers=2, heap='2g'))
